@@ -142,6 +142,9 @@ func (dist *GammaDistribution) ImportConfig(config ConfigDistribution, t ScalarT
   if parameters, ok := config.GetParametersAsFloats(); !ok {
     return fmt.Errorf("invalid config file")
   } else {
+    if len(parameters) != 2 {
+      return fmt.Errorf("invalid config file")
+    }
     alpha := NewScalar(t, parameters[0])
     beta  := NewScalar(t, parameters[1])
 
